@@ -35,18 +35,26 @@ def run_case(case):
         binp = case['bin']
         env = dict(os.environ)
         env['TSAN_OPTIONS'] = 'halt_on_error=0 report_signal_unsafe=0 exitcode=0'
-        for rep in range(case['reps']):
+        for rep in range(2 * case['reps']):
             sd = r.randrange(1, 10 ** 6)
-            nj = r.choice([40, 100, 200])
-            ns = r.choice([50, 200, 400])
-            seq = subprocess.run([binp, 'seq', '1', str(nj), str(sd), str(ns)], capture_output=True, text=True, env=env, timeout=600)
-            want = dict(l.split() for l in seq.stdout.splitlines())
+            # second job class of the driver: module simulations (tree gravity with a different G / softening / opening angle per job, direct /
+            # tree / line collision searches with merge or hard-sphere resolution, periodic boxes with ghost rings), all in flight together
+            jc = ['modules'] if rep % 2 else []
+            nj = r.choice([40, 100, 200]) if not jc else r.choice([32, 64])
+            ns = r.choice([50, 200, 400]) if not jc else r.choice([20, 60])
+            seq = subprocess.run([binp, 'seq', '1', str(nj), str(sd), str(ns)] + jc, capture_output=True, text=True, env=env, timeout=600)
+            want = dict(l.split() for l in seq.stdout.splitlines() if not l.startswith('#'))
+            if seq.returncode != 0 or len(want) != nj:
+                add('threads:driver-died:sequential:%s' % case['variant'], 'rc=%r jobs reported %d of %d (class %r); stderr %r' % (seq.returncode, len(want), nj, jc, seq.stderr[-600:]))
+                continue
             for nth in r.sample([2, 4, 8, 16, 32], 2):
-                par = subprocess.run([binp, 'par', str(nth), str(nj), str(sd), str(ns)], capture_output=True, text=True, env=env, timeout=600)
+                par = subprocess.run([binp, 'par', str(nth), str(nj), str(sd), str(ns)] + jc, capture_output=True, text=True, env=env, timeout=600)
                 counters['cdriver_runs'] += 1
+                if jc:
+                    counters['cdriver_module_runs'] = counters.get('cdriver_module_runs', 0) + 1
                 if case['variant'] == 'tsan':
                     counters['tsan_runs'] += 1
-                got = dict(l.split() for l in par.stdout.splitlines())
+                got = dict(l.split() for l in par.stdout.splitlines() if not l.startswith('#'))
                 if par.returncode != 0 or len(got) != nj:
                     add('threads:driver-died:%s' % case['variant'], 'rc=%r jobs reported %d of %d; stderr %r' % (par.returncode, len(got), nj, par.stderr[-600:]))
                     continue
@@ -54,6 +62,9 @@ def run_case(case):
                     counters['cdriver_jobs_compared'] += 1
                     if got.get(k) != want[k]:
                         integ = ['ias15', 'whfast', 'saba', 'eos', 'leapfrog', 'mercurius', 'trace', 'bs', 'janus', 'whfast-unsafe'][int(k) % 10]
+                        if jc:
+                            kk = int(k)
+                            integ = 'modules:gravity-%s:collision-%s%s' % (['tree', 'tree', 'basic', 'compensated'][kk % 4], ['none', 'direct', 'tree', 'line'][(kk // 4) % 4], ':periodic' if (kk // 2) % 2 else '')
                         add('threads:result-differs-from-sequential:%s' % integ, 'job %s (%s) seed %d steps %d with %d threads: %s vs sequential %s (%s build)' % (k, integ, sd, ns, nth, got.get(k), want[k], case['variant']))
                 reports = re.findall(r'WARNING: ThreadSanitizer: ([^\n]*)\n(.*?)(?=\n\n|\Z)', par.stderr, re.S)
                 seen = set()
@@ -64,7 +75,7 @@ def run_case(case):
                         continue
                     seen.add(key)
                     add('tsan:%s:%s' % (key[0].replace(' ', '-'), '/'.join(frames)), 'ThreadSanitizer report with %d threads, seed %d: %s %s' % (nth, sd, title, body[:600]))
-                cells.add(json.dumps(['cdriver', case['variant'], nth]))
+                cells.add(json.dumps(['cdriver', case['variant'], nth, bool(jc)]))
     elif kind == 'pythreads':
         import rebound
         from vf import rt
@@ -419,7 +430,7 @@ def main(tier, seed):
         for c, rr in zip(cs, res):
             V.absorb(c, rr, crash_mech=crash_mech)
     inc = []
-    for k in ('cdriver_runs', 'cdriver_jobs_compared', 'tsan_runs', 'pythread_rounds', 'pythread_sims_compared', 'server_runs', 'server_runs_unsynchronised', 'server_snapshots', 'server_snapshots_mid_run', 'bystander_requests_served', 'bystander_snapshots', 'bystander_fd_cycles'):
+    for k in ('cdriver_runs', 'cdriver_module_runs', 'cdriver_jobs_compared', 'tsan_runs', 'pythread_rounds', 'pythread_sims_compared', 'server_runs', 'server_runs_unsynchronised', 'server_snapshots', 'server_snapshots_mid_run', 'bystander_requests_served', 'bystander_snapshots', 'bystander_fd_cycles'):
         if V.counters.get(k, 0) == 0:
             inc.append('monitor counter %s is zero' % k)
     return V.finish(
